@@ -167,11 +167,27 @@ def shard(ctx, payload):
                 txt = ('%.2f' % k).rstrip('0').rstrip('.') if d % 1000 else '%d' % (d // 1000)
                 if len(txt.split('.')[0]) <= 3:
                     codes.append((d, txt + 'K'))
+                    # the same distance with its decimals written out: 60.0K, 60.00K, 9.50K
+                    if '.' not in txt:
+                        codes.append((d, txt + '.0K'))
+                        codes.append((d, txt + '.00K'))
+                    elif len(txt.split('.')[1]) == 1:
+                        codes.append((d, txt + '0K'))
     else:
         codes = []
         for cm in range(1, 25001, 1 if thorough else 7):       # hundredths of a mile up to 250 miles
             txt = ('%.2f' % (cm / 100.0)).rstrip('0').rstrip('.')
             codes.append((int(1609 * cm / 100.0), txt + 'M'))
+            if '.' not in txt:
+                codes.append((int(1609 * cm / 100.0), txt + '.0M'))
+                codes.append((int(1609 * cm / 100.0), txt + '.00M'))
+    if kind == 'K':
+        # every whole kilometre up to 400 km in all three spellings, whatever the tier's stride
+        extra = [(n * 1000, '%d%sK' % (n, sfx)) for n in range(1, 401) for sfx in ('', '.0', '.00')]
+        codes = sorted(set(codes + extra))
+    elif kind == 'M':
+        extra = [(int(1609 * n), '%d%sM' % (n, sfx)) for n in range(1, 251) for sfx in ('', '.0', '.00')]
+        codes = sorted(set(codes + extra))
     chunk = -(-len(codes) // nparts)
     codes = codes[part * chunk:(part + 1) * chunk + 1]      # contiguous, one code of overlap for the order clause
     prev = None
